@@ -121,6 +121,8 @@ class C15(Harness):
                 return [[[vals[(i, c, t)] for t in range(n_t)] for c in cols] for i in range(n_i)], cols
             if rep == "2d":
                 A = X.to_numpy() if hasattr(X, "to_numpy") else X
+                if np.ndim(A) != 2:
+                    return [["<%d-d table of shape %s>" % (np.ndim(A), list(np.shape(A)))]], None
                 return [[[S(A[i, j * nt + t]) for t in range(nt)] for j in range(A.shape[1] // nt)] for i in range(A.shape[0])], ([str(c) for c in X.columns] if hasattr(X, "columns") else None)
             raise AssertionError(rep)
 
@@ -182,6 +184,17 @@ class C15(Harness):
         out["check_X"] = cx
         out["check_X_cols"] = {"nested->pandas": [str(c) for c in vp.check_X(n0, coerce_to_pandas=True).columns], "nested_np->pandas": [str(c) for c in vp.check_X(nested(True), coerce_to_pandas=True).columns]}
         out["names"] = names
+        # Series cells whose own time labels differ between instances (windows cut from one recording): values go by position
+        offs = pd.DataFrame()
+        for j, nm in enumerate(names):
+            col = []
+            for i in range(ni):
+                v = np.empty(nt, dtype=object if sym else cdt)
+                for t in range(nt):
+                    v[t] = x[i][j][t]
+                col.append(pd.Series(v, index=range(i, i + nt)))
+            offs[nm] = col
+        out["offset_labels"] = {"2d": canon("2d", dp.from_nested_to_2d_array(offs))[0], "3d": canon("3d", dp.from_nested_to_3d_numpy(offs))[0]}
         if nc == 1:
             # table -> nested with the caller's own instance labels (a fold of a larger panel, ids ...)
             labs = [10 - 3 * i for i in range(ni)]
@@ -227,6 +240,8 @@ class C15(Harness):
             same(vals, "check_X-coercions", None, {"coercion": k})
         for k, cols in out["check_X_cols"].items():
             P.check("column-names-preserved", cols == names, {"coercion": k, "cols": cols, "want": names})
+        for rep_, vals_ in out.get("offset_labels", {}).items():
+            same(vals_, "cell-preserved", None, {"path": "nested(per-instance time labels)->%s" % rep_})
         if "table_back" in out:
             tb = out["table_back"]
             same(tb["vals"], "cell-preserved", None, {"path": "nested->2d->nested(index=labels)"})
